@@ -102,9 +102,11 @@ def call_args(n):
 class FnView:
     """One function body with parent links, bindings and lazily computed terms."""
 
-    def __init__(self, prog, fn):
+    def __init__(self, prog, fn, inline_lets=True):
         self.prog = prog
         self.fn = fn
+        self.inline_lets = inline_lets
+        self.let_bound = set()
         self.path = fn["npath"]
         self.body = fn["body"]
         self.parent = {}
@@ -133,6 +135,8 @@ class FnView:
             k = n.get("k")
             if k == "let":
                 init = n.get("init")
+                if n["pat"].get("k") == "pbind":
+                    self.let_bound.add(n["pat"]["id"])
                 self._bind(n["pat"], ("node", init) if init is not None else ("uninit",))
             elif k == "for":
                 self._bind(n["pat"], ("item", n["iter"]))
@@ -187,6 +191,8 @@ class FnView:
     def local_is_inlinable(self, lid):
         b = self.binds.get(lid)
         if b is None or b["mut"] or lid in self.assigned:
+            return False
+        if not self.inline_lets and lid in self.let_bound:
             return False
         v = b["val"]
         return v[0] not in ("uninit",)
@@ -1192,3 +1198,179 @@ def straightline(fv, stmts, tracked):
                               % (k, line_of(x)))
         effects.append(ev(x))
     return state, effects
+
+
+# ------------------------------------------------------------------ path-wise symbolic composition
+
+def assigned_in(fv, root):
+    """terms (fields / locals) assigned anywhere under root, plus receivers mutated through &mut calls"""
+    out = set()
+    for n in walk(root):
+        k = n.get("k")
+        if k in ("assign", "assignop"):
+            out.add(fv.term(n["l"]))
+        elif k == "mcall" and n["recv"].get("aty", "").startswith("&mut "):
+            out.add(fv.term(n["recv"]))
+        elif k == "let" and n["pat"].get("k") == "pbind" and "Mut)" in n["pat"].get("mode", ""):
+            out.add(("local", n["pat"]["name"], n["pat"]["id"]))
+    return out
+
+
+class SymPath:
+    __slots__ = ("conds", "state", "exit", "ret", "effects", "events")
+
+    def __init__(self):
+        self.conds = []     # [(term evaluated in the state at the test, polarity, node)]
+        self.state = {}     # var term -> value term over initial symbols
+        self.exit = None
+        self.ret = None     # returned term evaluated in the final state
+        self.effects = []   # [(callee last name, recv var, args...)] mutating calls in order
+        self.events = []
+
+
+def sym_paths(fv, root, limit=60000):
+    """Enumerate paths through `root` (inner loops are atomic: variables they assign become
+    ("loopval", name, line)) and compose assignments symbolically along each path.
+    Initial values are the variables' own terms (e.g. ("field", ("self",), "pos"))."""
+    inner_loops = {}
+
+    def want(n):
+        k = n.get("k")
+        if k in ("assign", "assignop", "ret"):
+            return True
+        if k == "let":
+            return True
+        if k == "mcall" and n["recv"].get("aty", "").startswith("&mut "):
+            return True
+        return False
+
+    raw = enum_paths_atomic(root, want, limit)
+    fv = FnView(fv.prog, fv.fn, inline_lets=False)   # lets are evaluated where they stand
+    out = []
+    for ev, ex in raw:
+        sp = SymPath()
+        st = {}
+        vers = {}
+
+        def cur(t):
+            return subst(t, st) if st else t
+
+        for e in ev:
+            if e[0] == "cond":
+                sp.conds.append((cur(fv.term(e[1])), e[2], e[1]))
+            elif e[0] == "arm":
+                m, i = e[1], e[2]
+                sp.conds.append((("arm", cur(fv.term(m["e"])), pat_term(m["arms"][i]["pat"])), True, m))
+            elif e[0] == "loop":
+                n = e[1]
+                if id(n) not in inner_loops:
+                    inner_loops[id(n)] = assigned_in(fv, n)
+                for v in inner_loops[id(n)]:
+                    nm = v[2] if v[0] == "field" else (v[1] if v[0] == "local" else show(v))
+                    st[v] = ("loopval", nm, line_of(n))
+                sp.events.append(("loop", n))
+            elif e[0] == "ev":
+                n = e[1]
+                k = n.get("k")
+                if k == "assign":
+                    lt = fv.term(n["l"])
+                    st[lt] = cur(fv.term(n["r"]))
+                elif k == "assignop":
+                    lt = fv.term(n["l"])
+                    st[lt] = mk_bin(n["op"].rstrip("="), st.get(lt, lt), cur(fv.term(n["r"])))
+                elif k == "let":
+                    p = n["pat"]
+                    if p.get("k") == "pbind" and n.get("init") is not None:
+                        st[("local", p["name"], p["id"])] = cur(fv.term(n["init"]))
+                elif k == "mcall":
+                    rv = fv.term(n["recv"])
+                    name = cname(n).split("::")[-1]
+                    args = tuple(cur(fv.term(a)) for a in n.get("args", []))
+                    sp.effects.append((name, rv) + args)
+                    vers[rv] = vers.get(rv, 0) + 1
+                    st[rv] = ("ver", rv, vers[rv], name)
+                elif k == "ret":
+                    sp.ret = cur(fv.term(n["e"])) if n.get("e") is not None else ("unit",)
+                sp.events.append(("ev", n))
+        sp.state = st
+        sp.exit = ex
+        out.append(sp)
+    return out
+
+
+def enum_paths_atomic(root, want, limit=60000):
+    """enum_paths, but an inner loop is a single ("loop", node) event"""
+    count = [0]
+
+    def seq(parts_list):
+        acc = [([], ("fall",))]
+        for get in parts_list:
+            nxt = []
+            for ev, ex in acc:
+                if ex[0] != "fall":
+                    nxt.append((ev, ex))
+                    continue
+                for ev2, ex2 in get():
+                    nxt.append((ev + ev2, ex2))
+                    count[0] += 1
+                    if count[0] > limit:
+                        raise TooManyPaths()
+            acc = nxt
+        return acc
+
+    def P(n):
+        if n is None:
+            return [([], ("fall",))]
+        k = n.get("k")
+        if k == "if":
+            out = []
+            for ev, ex in P(n["cond"]):
+                if ex[0] != "fall":
+                    out.append((ev, ex))
+                    continue
+                for ev2, ex2 in P(n["then"]):
+                    out.append((ev + [("cond", n["cond"], True)] + ev2, ex2))
+                if n.get("else") is not None:
+                    for ev2, ex2 in P(n["else"]):
+                        out.append((ev + [("cond", n["cond"], False)] + ev2, ex2))
+                else:
+                    out.append((ev + [("cond", n["cond"], False)], ("fall",)))
+            return out
+        if k == "match":
+            out = []
+            for ev, ex in P(n["e"]):
+                if ex[0] != "fall":
+                    out.append((ev, ex))
+                    continue
+                for i, arm in enumerate(n.get("arms", [])):
+                    for ev2, ex2 in P(arm["body"]):
+                        out.append((ev + [("arm", n, i)] + ev2, ex2))
+            return out
+        if k in ("loop", "for", "while"):
+            return [([("loop", n)], ("fall",))]
+        if k == "ret":
+            return [(ev + [("ev", n)], ("ret", n) if ex[0] == "fall" else ex) for ev, ex in P(n.get("e"))]
+        if k == "break":
+            return [(ev, ("break", n.get("target")) if ex[0] == "fall" else ex) for ev, ex in P(n.get("e"))]
+        if k == "continue":
+            return [([], ("continue", n.get("target")))]
+        if k == "closure":
+            return [([], ("fall",))]
+        if k == "block":
+            parts = [(lambda s=s: P(s)) for s in n.get("stmts", [])]
+            if n.get("expr") is not None:
+                parts.append(lambda: P(n["expr"]))
+            return seq(parts)
+        if k == "let":
+            res = P(n.get("init")) if n.get("init") is not None else [([], ("fall",))]
+            return [(ev + [("ev", n)] if ex[0] == "fall" else ev, ex) for ev, ex in res]
+        if k in ("call", "mcall") and diverges(n):
+            pre = seq([(lambda c=c: P(c)) for _, c in children(n)])
+            return [(ev, ("diverge",) if ex[0] == "fall" else ex) for ev, ex in pre]
+        parts = [(lambda c=c: P(c)) for _, c in children(n)]
+        res = seq(parts) if parts else [([], ("fall",))]
+        if want(n):
+            res = [(ev + [("ev", n)] if ex[0] == "fall" else ev, ex) for ev, ex in res]
+        return res
+
+    return P(root)
